@@ -91,6 +91,158 @@ func runLabels(raw json.RawMessage, impl any) []string {
 	return l
 }
 
+// snapSubsetOn: by the set meaning, does every value the command's requirement on `key` admits (undefined = anything)
+// satisfy the re-simulated requirement `r`?  (labels only: the verdicts are the real code's and the Lean model's)
+func snapSubsetOn(cmdReqs map[string]any, key string, r map[string]any) bool {
+	vals := func(m map[string]any) map[string]bool {
+		out := map[string]bool{}
+		vs, _ := m["values"].([]any)
+		for _, v := range vs {
+			out[fmt.Sprint(v)] = true
+		}
+		return out
+	}
+	rc, _ := r["complement"].(bool)
+	rv := vals(r)
+	l, ok := cmdReqs[key].(map[string]any)
+	lc, lv := true, map[string]bool{}
+	if ok {
+		lc, _ = l["complement"].(bool)
+		lv = vals(l)
+	}
+	switch {
+	case lc && rc:
+		for v := range rv {
+			if !lv[v] {
+				return false
+			}
+		}
+		return true
+	case lc && !rc:
+		return false
+	case !lc && rc:
+		for v := range lv {
+			if rv[v] {
+				return false
+			}
+		}
+		return true
+	default:
+		for v := range lv {
+			if !rv[v] {
+				return false
+			}
+		}
+		return true
+	}
+}
+
+// validateLabels: besides the run labels, for every case in which a command reached validation: the verdict, and how
+// the re-simulated NodeClaim's requirements relate to the requirements of the command's replacement — the frequency
+// with which the re-simulated claim GAINS a zone / capacity-type / other requirement is the frequency with which the
+// requirements conjunct of validateCommand decides.
+func validateLabels(raw json.RawMessage, impl any) []string {
+	l := runLabels(raw, impl)
+	m, _ := impl.(map[string]any)
+	c, _ := m["churned"].(bool)
+	if !c {
+		return append(l, "no-command-reached-validation")
+	}
+	v, _ := m["verdict"].(string)
+	l = append(l, "verdict:"+v)
+	if m["cmd"] != nil {
+		l = append(l, "released-after-churn")
+	} else {
+		l = append(l, "rejected-after-churn")
+	}
+	pre, _ := m["cmd"].(map[string]any)
+	if pre == nil {
+		pre, _ = m["pre"].(map[string]any)
+		if pre == nil {
+			return append(l, "rejected-command-not-recomputed")
+		}
+	}
+	sim, _ := m["sim"].(map[string]any)
+	if e, _ := sim["err"].(string); e != "" {
+		return append(l, "resim:"+e)
+	}
+	claims, _ := sim["claims"].([]any)
+	rp, _ := pre["repl"].([]any)
+	if a, _ := sim["allScheduled"].(bool); !a {
+		l = append(l, "resim:unscheduled-pods")
+	}
+	l = append(l, fmt.Sprintf("resim:claims=%d/cmd-replacements=%d", min(len(claims), 2), len(rp)))
+	if len(claims) != 1 || len(rp) != 1 {
+		return l
+	}
+	cmdC, _ := rp[0].(map[string]any)
+	simC, _ := claims[0].(map[string]any)
+	cmdReqs, _ := cmdC["reqs"].(map[string]any)
+	simReqs, _ := simC["reqs"].(map[string]any)
+	gained := false
+	for k, rv := range simReqs {
+		r, _ := rv.(map[string]any)
+		if snapSubsetOn(cmdReqs, k, r) {
+			continue
+		}
+		gained = true
+		switch k {
+		case zoneKey:
+			l = append(l, "resim-claim-gains:zone")
+		case ctKey:
+			l = append(l, "resim-claim-gains:capacity-type")
+		default:
+			l = append(l, "resim-claim-gains:other-key")
+		}
+	}
+	// the other way round: the command constrains a key more than the re-simulated claim does (typically the spot pin
+	// of computeConsolidation against a claim that does not mention the capacity type)
+	strict := false
+	for k, cv := range cmdReqs {
+		cl, _ := cv.(map[string]any)
+		if c, _ := cl["complement"].(bool); c {
+			if vs, _ := cl["values"].([]any); len(vs) == 0 {
+				continue // `Exists`: no constraint on the values
+			}
+		}
+		r, ok := simReqs[k].(map[string]any)
+		if !ok || (!jsonSame(cl, r) && snapSubsetOn(cmdReqs, k, r)) {
+			strict = true
+			if k == ctKey {
+				l = append(l, "command-capacity-type-strictly-tighter-than-resim")
+			}
+		}
+	}
+	if !gained {
+		if strict {
+			l = append(l, "resim-claim-gains:nothing(command-strictly-tighter)")
+		} else {
+			l = append(l, "resim-claim-gains:nothing(same-requirements)")
+		}
+	}
+	// instance-type names
+	names := map[string]bool{}
+	sits, _ := simC["its"].([]any)
+	for _, n := range sits {
+		names[fmt.Sprint(n)] = true
+	}
+	sub := true
+	cits, _ := cmdC["its"].([]any)
+	for _, n := range cits {
+		if !names[fmt.Sprint(n)] {
+			sub = false
+		}
+	}
+	l = append(l, fmt.Sprintf("resim:instance-types-subset=%v", sub))
+	return l
+}
+
+func jsonSame(a, b any) bool {
+	x, _ := json.Marshal(a)
+	y, _ := json.Marshal(b)
+	return string(x) == string(y)
+}
+
 func hasCmd(raw json.RawMessage, impl any) bool {
 	m, _ := impl.(map[string]any)
 	return m["cmd"] != nil
@@ -254,12 +406,15 @@ func Ops() []*core.Op {
 		},
 		{
 			Name: "c06.validate",
-			Doc:  "the real ComputeCommands of single- and multi-node consolidation while the cluster changes during the 15 s validation delay (a pod lands on a node, a pending pod appears, instance types go out of stock, a node starts deleting): a released command is judged against the cluster as it is at release (a feasible home must still EXIST for every reschedulable pod of the removed nodes: the command's own placements, else an exhaustive search), and compared with the model's validateCommand on the harness's re-simulation",
+			Doc:  "the real ComputeCommands of single- and multi-node consolidation while the cluster changes during the 15 s validation delay (a pod lands on a node, a pending pod appears, instance types go out of stock, a node starts deleting; in a third of the cases the shapes in which a zone- / capacity-type- / instance-type-constrained pod moves from a filled-up node onto the replacement, with controls). Whenever a command reached validation the real verdict is compared with the model's validateCommand in BOTH directions on the harness's re-simulation of the changed cluster: released => the model accepts; rejected by validateCommand (class scheduling) => the model rejects - the rejected command is identified by its ConsolidationRejected events and recomputed by computeConsolidation (+ filterOutSameInstanceType) on an identical fresh world -; rejected for churn <=> the candidates are no longer candidates (budget rejections are C05's). A released command is also judged against the cluster as it is at release (a feasible home must still EXIST for every reschedulable pod of the removed nodes under EVERY launch the released replacement permits: the command's own placements, else an exhaustive search)",
 			N:    func(t core.Tier) int { return map[core.Tier]int{core.Quick: 800, core.Thorough: 10000}[t] },
 			Gen: func(r *rand.Rand, t core.Tier) any {
-				// the shape of the recorded finding (kept rare: the corpus replays its witness on every run, and a
-				// flood of known failures would crowd other failures out of the report)
-				if r.Float64() < map[core.Tier]float64{core.Quick: 0.01, core.Thorough: 0}[t] {
+				// a third of the cases: the shapes in which the re-simulated NodeClaim gains (or, as controls, does not gain) a
+				// zone / capacity-type / other requirement over the command's replacement
+				switch x := r.Float64(); {
+				case x < 0.30:
+					return genValidateTighten(r, t)
+				case x < 0.33:
 					return genValidateZone(r, t)
 				}
 				return genValidate(r, t)
@@ -271,18 +426,7 @@ func Ops() []*core.Op {
 				c, _ := m["churned"].(bool)
 				return c
 			},
-			Labels: func(raw json.RawMessage, impl any) []string {
-				l := runLabels(raw, impl)
-				m, _ := impl.(map[string]any)
-				if c, _ := m["churned"].(bool); c {
-					if m["cmd"] != nil {
-						l = append(l, "released-after-churn")
-					} else {
-						l = append(l, "rejected-after-churn")
-					}
-				}
-				return l
-			},
+			Labels: validateLabels,
 			Signature: func(raw json.RawMessage, impl any) string { return "validate" },
 			Shrink:    shrinkRun,
 		},
